@@ -86,9 +86,9 @@ def run_case(arg):
 
 def run(ctx: core.Ctx):
     if ctx.quick:
-        states = scriptgen.tlc_programs(ctx, "Script_n3.cfg", "Script_sim.cfg", sim_num=8000, sim_depth=16)
+        states = scriptgen.tlc_programs(ctx, ["Script_n3.cfg", "Script_ops3.cfg"], "Script_sim.cfg", sim_num=8000, sim_depth=16)
     else:
-        states = scriptgen.tlc_programs(ctx, "Script_n4.cfg", "Script_sim.cfg", sim_num=60000, sim_depth=18)
+        states = scriptgen.tlc_programs(ctx, ["Script_n4.cfg", "Script_ops3.cfg"], "Script_sim.cfg", sim_num=60000, sim_depth=18)
     rng = random.Random(ctx.seed)
     acc = [s for s in states if not s["refused"]]
     ref = [s for s in states if s["refused"]]
